@@ -2,6 +2,8 @@ package genetics
 
 import (
 	"github.com/yaricom/goNEAT/v4/neat"
+	neatmath "github.com/yaricom/goNEAT/v4/neat/math"
+	"github.com/yaricom/goNEAT/v4/neat/network"
 )
 
 // C17 (partial): per-kernel determinism by self-composition. Each kernel is run twice, on two equal copies of the
@@ -138,5 +140,62 @@ func VC17_Normalisation_F() {
 	for i := range p1.Organisms {
 		vAssert(p1.Organisms[i].ExpectedOffspring == p2.Organisms[i].ExpectedOffspring, "C17: expected offspring are identical bit for bit in two runs on the same population")
 	}
+	vReach("end")
+}
+
+// "Outcomes do not depend on earlier unrelated work in the process": the same crossover is run in a fresh process
+// state and after an unrelated crossover of other genomes (whose draws are not part of the compared stream); a
+// package-level cache, pool or counter that leaks from one call into the next makes the two children differ. The
+// less fit parent carries a module whose only node is one the child does not inherit - the one place where the
+// crossovers READ their node lookup table.
+func c17AddHiddenModule(g *Genome, hidden int) {
+	ctrl := network.NewNNode(20, network.HiddenNeuron)
+	ctrl.ActivationType = neatmath.MultiplyModuleActivation
+	ctrl.AddIncoming(g.Nodes[hidden], 1.0)
+	ctrl.AddOutgoing(g.Nodes[hidden], 1.0)
+	g.ControlGenes = append(g.ControlGenes, NewMIMOGene(ctrl, 900, 0, true))
+}
+
+// the genomes of the unrelated work are concrete: in->hidden->out plus in->out (its child holds the hidden node)
+func c17Unrelated(id int) *Genome {
+	tr := neat.NewTrait()
+	tr.Id = 1
+	in := network.NewSensorNode(1, false)
+	bias := network.NewSensorNode(2, true)
+	out := network.NewNNode(3, network.OutputNeuron)
+	hid := network.NewNNode(4, network.HiddenNeuron)
+	nodes := []*network.NNode{in, bias, out, hid}
+	for _, n := range nodes {
+		n.Trait = tr
+	}
+	genes := []*Gene{
+		NewGeneWithTrait(tr, 0.5, in, out, false, 1, 0.5),
+		NewGeneWithTrait(tr, 0.25, in, hid, false, 3, 0.25),
+		NewGeneWithTrait(tr, 0.75, hid, out, false, 4, 0.75),
+	}
+	return NewGenome(id, []*neat.Trait{tr}, nodes, genes)
+}
+
+func VC17_History() {
+	k := 4 + vChoice("crossover", 3)
+	// concrete parents (their alignment is C04's subject); every random draw is symbolic
+	g1, o1 := c17Unrelated(1), c17Unrelated(2)
+	g1.Genes, o1.Genes = g1.Genes[:1], o1.Genes[:1] // in->out only: the hidden node is not inherited by the child
+	g2, o2 := c17Copy(g1, 1), c17Copy(o1, 2)
+	c17AddHiddenModule(o1, 3)
+	c17AddHiddenModule(o2, 3)
+	u1, u2 := c17Unrelated(3), c17Unrelated(4)
+	opts := tOpts()
+	mark := vRandMark()
+	r1 := c17Kernel(k, g1, o1, opts, c17Pop())
+	// unrelated earlier work before the second run (its own draws are not part of the compared stream)
+	_ = c17Kernel(4+vChoice("earlier unrelated crossover", 3), u1, u2, opts, c17Pop())
+	vRandRewind(mark)
+	r2 := c17Kernel(k, g2, o2, opts, c17Pop())
+	s1, s2 := snap(r1), snap(r2)
+	vAssert(sameNodes(s1, s2), "C17: earlier unrelated work does not change the nodes of the outcome")
+	vAssert(sameGenes(s1, s2), "C17: earlier unrelated work does not change the genes of the outcome")
+	vAssert(sameTraits(s1, s2), "C17: earlier unrelated work does not change the traits of the outcome")
+	vAssert(len(r1.ControlGenes) == len(r2.ControlGenes), "C17: earlier unrelated work does not change the modules of the outcome")
 	vReach("end")
 }
